@@ -108,8 +108,14 @@ func RandReader(r *Rand, n int, faults bool, delays bool) *plan.ReaderPlan {
 			rp.DelayUs = append(rp.DelayUs, int64(r.Range(0, 3))*int64(Pick(r, []int{1, 137, 1000, 250000}))+int64(r.Range(1, 99)))
 		}
 	}
+	if v, ok := boundary(r, 70000); ok && r.P(1, 6) {
+		rp.Chunks = []int{v}
+	}
 	if faults && r.P(1, 2) && n > 0 {
 		rp.FaultAt = biasedOffset(r, n)
+		if v, ok := boundary(r, n); ok && r.P(1, 5) {
+			rp.FaultAt = v
+		}
 		rp.FaultKind = Pick(r, []string{"eof", "eof", "eof-with-data", "err:unexpected-eof", "err:reset", "err:custom"})
 	} else if r.P(1, 8) {
 		rp.FaultAt = n
@@ -373,6 +379,9 @@ func RandDoc(r *Rand) GenDoc {
 		if d, ok := HarvestedDoc(r); ok {
 			return d
 		}
+	}
+	if r.P(1, 8) {
+		return BoundaryDoc(seed)
 	}
 	switch x := r.Intn(20); {
 	case x < 13:
